@@ -213,14 +213,17 @@ def _first_node(c, ifnode):
     return min(ids) if ids else None
 
 
-def _check_guards(prog, an, rep, f, target_nodes, table, what):
+def _check_guards(prog, an, rep, f, target_nodes, table, what, expect=None,
+                  test_of=None):
     R = 'C20.MPT.preconditions'
+    expect = expect or {}
     c = an.cfg(f)
     order = order_of(f)
     upto = min((c.nodes[t].ast for t in target_nodes),
                key=lambda a_: order.get(id(a_), 10 ** 9))
     guards = _guard_ifs(an, f, upto)
     seen = {}
+    combined = set()
     for ifn, rs, kind in guards:
         msg = _msg(rs)
         key = None
@@ -245,9 +248,33 @@ def _check_guards(prog, an, rep, f, target_nodes, table, what):
         same = len(texts) == len(allowed)
         for (pre, test), want in zip(texts, allowed):
             wpre = 'else: ' if want.startswith('else: ') else ''
-            same = same and pre == wpre and \
-                cond_equiv(f, test, want[len(wpre):])
+            # (`else:` of a test is the `then` of its negation)
+            got_l = ast.UnaryOp(op=ast.Not(), operand=test) if pre else test
+            want_l = ast.parse(want[len(wpre):], mode='eval').body
+            if wpre:
+                want_l = ast.UnaryOp(op=ast.Not(), operand=want_l)
+            same = same and cond_equiv(f, got_l, want_l)
         shown = [pre + canon(f, t) for pre, t in texts]
+        if not same and key in expect:
+            # a conjunct may sit in the enclosing test or in the guard's
+            # own: what has to agree is when the refusal happens
+            def conj(parts):
+                vals = []
+                for pre, t in parts:
+                    t = ast.parse(t, mode='eval').body \
+                        if isinstance(t, str) else t
+                    vals.append(ast.UnaryOp(op=ast.Not(), operand=t)
+                                if pre else t)
+                return vals[0] if len(vals) == 1 else ast.BoolOp(
+                    op=ast.And(), values=vals)
+            own = test_of(ifn) if test_of is not None else ifn.test
+            got = conj(list(texts) + [('', own)])
+            want_c = conj([('else: ' if w.startswith('else: ') else '',
+                            w[6:] if w.startswith('else: ') else w)
+                           for w in allowed] + [('', expect[key])])
+            if cond_equiv(f, got, want_c):
+                same = True
+                combined.add(key)
         rep.check(same, R, '%s: guard "%s" applies under %s' % (
             f.qname, key, allowed or 'no condition'), f.where(ifn),
             'guard "%s" is now nested under %s (expected %s): it no longer '
@@ -266,6 +293,7 @@ def _check_guards(prog, an, rep, f, target_nodes, table, what):
                                                                   k),
                   f.where(), 'the precondition "%s" is gone: the job no '
                   'longer refuses in that case' % k)
+    seen['__combined__'] = combined
     return seen
 
 
@@ -360,8 +388,6 @@ def create_preconditions(prog, an, rep):
     pushes = [n.id for n in an.target_nodes(f, Spec.func(GU + '.push'),
                                             depth=0)]
     rep.floor('C20 pushes in create_branch', len(pushes), 1)
-    seen = _check_guards(prog, an, rep, f, pushes, CREATE_TABLE,
-                         'the new branch is pushed')
     R = 'C20.ARG.preconditions'
     # what each guard tests
     expect = {
@@ -376,8 +402,12 @@ def create_preconditions(prog, an, rep):
         'due to queued data': 'build_queue_collection(job).queued_prs',
         'is not a GWF destination branch': KINDS,
     }
+    seen = _check_guards(prog, an, rep, f, pushes, CREATE_TABLE,
+                         'the new branch is pushed', expect,
+                         lambda g_: _with_stored(f, g_))
+    combined = seen.pop('__combined__')
     for k, text in expect.items():
-        if k in seen:
+        if k in seen and k not in combined:
             rep.evaluated()
             rep.check(cond_equiv(f, _with_stored(f, seen[k][0]), text), R,
                       '%s: "%s" tests %s' % (f.qname, k, text),
@@ -437,8 +467,6 @@ def delete_preconditions(prog, an, rep):
                 targets.append(n.id)
     rep.floor('C20 forced deletions in delete_branch', len(targets), 1)
     first_effect = [n.id for n, _ in _effect_nodes(prog, an, f)]
-    seen = _check_guards(prog, an, rep, f, targets + first_effect[:1],
-                         DELETE_TABLE, 'the branch is deleted')
     R = 'C20.ARG.preconditions'
     expect = {
         'NothingToDo': 'job.settings.branch not in %s.remote_branches' % REPO,
@@ -450,8 +478,11 @@ def delete_preconditions(prog, an, rep):
             "%s.cmd('git tag').split('\\n')[:-1]" % (B, B, REPO),
         'is not a GWF destination branch': KINDS,
     }
+    seen = _check_guards(prog, an, rep, f, targets + first_effect[:1],
+                         DELETE_TABLE, 'the branch is deleted', expect)
+    combined = seen.pop('__combined__')
     for k, text in expect.items():
-        if k in seen:
+        if k in seen and k not in combined:
             rep.evaluated()
             rep.check(cond_equiv(f, seen[k][0].test, text), R,
                       '%s: "%s" tests %s' % (f.qname, k, text),
